@@ -91,6 +91,78 @@ OBS = {1: 'd_min vs model', 2: 'd_max vs model', 3: 'd_min is not the distance a
        7: 'Path.radialrange minimum (value, t, index) vs strict-< fold', 8: 'Path.radialrange maximum (value, t, index) vs strict-> fold'}
 
 
+# ------------------------------------------------------------ number types
+# the same numeric value handed over as a builtin or as a numpy scalar must give the same answer
+NUMTYPES = ['complex', 'np.complex128', 'float', 'np.float64', 'int', 'np.int64']
+
+
+def admissible(v):
+    v = complex(v)
+    out = ['complex', 'np.complex128']
+    if v.imag == 0:
+        out += ['float', 'np.float64']
+        if v.real == int(v.real) and abs(v.real) < 2 ** 52:
+            out += ['int', 'np.int64']
+    return out
+
+
+def typed(v, ty):
+    import numpy as np
+    v = complex(v)
+    return {'complex': lambda: v, 'np.complex128': lambda: np.complex128(v), 'float': lambda: float(v.real),
+            'np.float64': lambda: np.float64(v.real), 'int': lambda: int(v.real),
+            'np.int64': lambda: np.int64(int(v.real))}[ty]()
+
+
+def pick_type(rng, v, numpy_bias=0.6):
+    """a random admissible type; the most special admissible ones (int / float) and numpy scalars are favoured"""
+    adm = admissible(v)
+    pool = adm[-2:] if rng.random() < 0.7 else adm
+    np_pool = [t for t in pool if t.startswith('np.')]
+    if np_pool and rng.random() < numpy_bias:
+        return rng.choice(np_pool)
+    return rng.choice(pool)
+
+
+def typed_seg(kind, data, ptypes):
+    from svgpathtools import Line, QuadraticBezier, CubicBezier
+    cls = {'line': Line, 'quad': QuadraticBezier, 'cubic': CubicBezier}[kind]
+    return cls(*[typed(p, t) for p, t in zip(data, ptypes)])
+
+
+def same_result(a, b, size):
+    """two radialrange results (tuples of numbers / None) agree to rounding"""
+    fa = [x for tup in a for x in tup]; fb = [x for tup in b for x in tup]
+    if len(fa) != len(fb):
+        return False
+    for x, y in zip(fa, fb):
+        if (x is None) != (y is None):
+            return False
+        if x is not None and abs(float(x) - float(y)) > 1e-9 * max(size, 1.0):
+            return False
+    return True
+
+
+def gen_typed_case(rng):
+    """small-integer Bezier whose end points lie on the real axis (so that they can be ints / floats / numpy
+    ints / numpy floats) and a real or integer query point near the middle of the curve: the extremes are
+    typically interior critical points"""
+    ri = lambda lo, hi: float(rng.randint(lo, hi))
+    kind = rng.choice(['quad', 'cubic', 'cubic', 'line'])
+    a, b = complex(ri(-12, -1), 0), complex(ri(1, 12), 0)
+    if kind == 'line':
+        pts = [a, b + 1j * rng.choice([0, 0, ri(-5, 5)])]
+    elif kind == 'quad':
+        pts = [a, complex(ri(-6, 6), ri(2, 12) * rng.choice([1, -1])), b]
+    else:
+        pts = [a, complex(ri(-15, 15), ri(-12, 12)), complex(ri(-15, 15), ri(-12, 12)), b]
+    zm = rng.choice(['int', 'int', 'real', 'complex-int'])
+    if zm == 'int': z = complex(ri(-8, 8), 0)
+    elif zm == 'real': z = complex(rng.uniform(-8, 8), 0)
+    else: z = complex(ri(-8, 8), ri(-8, 8))
+    return kind, pts, z, 'typed/%s/z-%s' % (kind, zm)
+
+
 # -------------------------------------------------------------- generators
 def unit(z):
     return z / abs(z) if z != 0 else 1 + 0j
@@ -282,10 +354,10 @@ def ill_conditioned(calls):
     return False
 
 
-def observe_seg(kind, data, z):
-    seg = make_seg(kind, data)
+def observe_seg(kind, data, z, ztype='complex', ptypes=None):
+    seg = typed_seg(kind, data, ptypes or ['complex'] * len(data))
     with RootsTap() as tap:
-        res = seg.radialrange(z)
+        res = seg.radialrange(typed(z, ztype))
     (dmin, tmin), (dmax, tmax) = res
     res = ((float(dmin), float(tmin)), (float(dmax), float(tmax)))
     size = max(1e-300, max(abs(p) for p in data), abs(z))
@@ -333,13 +405,16 @@ def run(rep, tier, seed, replay=None):
         if changed: n *= 3
         todo = []        # ('seg', kind, data, z, mode) | ('path', [(kind, data)...], z, mode)
         cx = lambda h: complex(float.fromhex(h[0]), float.fromhex(h[1]))
+        forced_types = None
         if replay:
             r = json.load(open(replay))['replay']
             c = r['case']
             if c['kind'] == 'path':
                 todo.append(('path', [deser(s) for s in c['segments']], cx(r['z']), 'replay'))
+                forced_types = (c.get('ztype', 'complex'), [s.get('ptypes') for s in c['segments']])
             else:
                 k, d = deser(c); todo.append(('seg', k, d, cx(r['z']), 'replay'))
+                forced_types = (c.get('ztype', 'complex'), [c.get('ptypes')])
         else:
             # hand-picked: a point segment queried at itself (the seed (0, None, None) of the max fold)
             todo.append(('path', [('cubic', [3 + 4j] * 4)], 3 + 4j, 'degenerate-point-path'))
@@ -368,6 +443,9 @@ def run(rep, tier, seed, replay=None):
                     segs, z, qm = gen_on_path(rng)
                     todo.append(('path', segs, complex(z), qm))
                 elif u < 0.37:
+                    k, d, z, m = gen_typed_case(rng)
+                    todo.append(('seg', k, d, z, m))
+                elif u < 0.47:
                     segs = []
                     for _ in range(rng.randint(1, 5)):
                         k, d, _m = gen_seg(rng); segs.append((k, d))
@@ -383,35 +461,82 @@ def run(rep, tier, seed, replay=None):
         cases, meta = [], []
         modes, nontrivial, vkeys = {}, set(), {}
         n_interior = 0
+        trng = common.mkrng(seed, 'C13-types')      # separate stream: the typing does not perturb the case stream
+        type_counts, n_cross = {}, 0
+
+        def choose_types(item):
+            """(type of the query point, [types of the control points per segment])"""
+            segs_d = [(item[1], item[2])] if item[0] == 'seg' else item[1]
+            z = item[3] if item[0] == 'seg' else item[2]
+            if forced_types is not None:
+                zt, pts = forced_types
+                return zt, [pt or ['complex'] * len(d) for pt, (k, d) in zip(pts, segs_d)]
+            if item[-1].startswith(('corpus', 'degenerate')):
+                return 'complex', [['complex'] * len(d) for k, d in segs_d]
+            return pick_type(trng, z), [[pick_type(trng, p, 0.5) for p in d] for k, d in segs_d]
+
+        def cross_types(call, z, ztype, base, size, sercase, what):
+            """the same query with the origin handed over as every other admissible number type"""
+            cnt = 0
+            for ty in admissible(z):
+                if ty == ztype:
+                    continue
+                cnt += 1
+                try:
+                    other = call(typed(z, ty))
+                    ok = same_result(base, other, size)
+                except Exception as e:
+                    other, ok = repr(e), False
+                if not ok:
+                    key = 'radialrange-origin-type-dependent'
+                    vkeys[key] = vkeys.get(key, 0) + 1
+                    rep.violation('C13: %s gives %r for the origin as %s but %r as %s (same value %r)'
+                                  % (what, base, ztype, other, ty, z),
+                                  {'kind': 'property', 'case': sercase, 'z': common.chex(z), 'types': [ztype, ty],
+                                   'how': './check C13 --replay <this file>'}, key=key)
+            return cnt
+
         for item in todo:
             mode = item[-1]
             modes[mode] = modes.get(mode, 0) + 1
             try:
+                ztype, ptypes_all = choose_types(item)
+                type_counts['origin:' + ztype] = type_counts.get('origin:' + ztype, 0) + 1
+                for pts_t in ptypes_all:
+                    for t in pts_t:
+                        type_counts['point:' + t] = type_counts.get('point:' + t, 0) + 1
                 if item[0] == 'seg':
                     _, kind, data, z, _m = item
-                    term, res, seg, size, calls = observe_seg(kind, data, z)
-                    sercase = ser(kind, data)
+                    term, res, seg, size, calls = observe_seg(kind, data, z, ztype, ptypes_all[0])
+                    sercase = dict(ser(kind, data), ztype=ztype, ptypes=ptypes_all[0])
+                    n_cross += cross_types(lambda zz: seg.radialrange(zz), z, ztype, res, size, sercase,
+                                           '%s.radialrange' % kind)
                     meta.append(('seg', sercase, z, res, [seg], size, calls, mode))
                     cases.append(term)
                     if 0 < res[0][1] < 1 or 0 < res[1][1] < 1:
                         n_interior += 1
                 else:
                     _, segs_d, z, _m = item
-                    segs = [make_seg(k, d) for k, d in segs_d]
+                    segs = [typed_seg(k, d, pt) for (k, d), pt in zip(segs_d, ptypes_all)]
                     path = Path(*segs)
+                    zt = typed(z, ztype)
                     with RootsTap() as tap:
-                        pres = path.radialrange(z)
+                        pres = path.radialrange(zt)
                     results = []
                     for s in segs:
-                        (a, b), (c, d) = s.radialrange(z)
+                        (a, b), (c, d) = s.radialrange(zt)
                         results.append(((float(a), float(b)), (float(c), float(d))))
-                    cl, fa = closest_point_in_path(z, path), farthest_point_in_path(z, path)
+                    cl, fa = closest_point_in_path(zt, path), farthest_point_in_path(zt, path)
                     if tuple(cl) != tuple(pres[0]) or tuple(fa) != tuple(pres[1]):
                         rep.violation('closest/farthest_point_in_path differ from Path.radialrange',
                                       {'kind': 'property', 'case': {'kind': 'path', 'segments': [ser(k, d) for k, d in segs_d]},
                                        'z': common.chex(z)}, key='closest-farthest-not-radialrange')
                     size = max(1e-300, max(abs(p) for k, d in segs_d for p in d), abs(z))
-                    sercase = {'kind': 'path', 'segments': [ser(k, d) for k, d in segs_d]}
+                    sercase = {'kind': 'path', 'ztype': ztype,
+                               'segments': [dict(ser(k, d), ptypes=pt) for (k, d), pt in zip(segs_d, ptypes_all)]}
+                    n_cross += cross_types(lambda zz: path.radialrange(zz), z, ztype, pres, size, sercase, 'Path.radialrange')
+                    n_cross += cross_types(lambda zz: (closest_point_in_path(zz, path), farthest_point_in_path(zz, path)),
+                                           z, ztype, (cl, fa), size, sercase, 'closest/farthest_point_in_path')
                     meta.append(('path', sercase, z, pres, segs, size, list(tap.calls), mode))
                     cases.append(path_terms(results, pres))
                 nontrivial.add(json.dumps([sercase, common.chex(z)], sort_keys=True))
@@ -470,7 +595,8 @@ def run(rep, tier, seed, replay=None):
                                     'np_roots': [[str(x) for x in c[1]] for c in calls][:3],
                                     'how': './check C13 --replay <this file>'}, key=key)
         rep.cov['violation_keys'] = vkeys
-        rep.cov['evaluations'] = len(cases) + nprop
+        rep.cov['evaluations'] = len(cases) + nprop + n_cross
+        rep.cov['number_types'] = dict(type_counts, cross_type_reruns=n_cross)
         rep.cov['traces_validated_against_impl'] = len(cases)
         rep.cov['distinct_nontrivial'] = len(nontrivial)
         rep.cov['rule'] = ('Line/Quadratic/Cubic segments (pools of C08, plus near-circular cubics) and paths of 1-5 of them, query '
